@@ -23,7 +23,7 @@ TEXT = {
  "C13": "theorems (every bus = every adversarial card): closed-form bound on bytes exchanged and delay calls for every driver call (termination by structural recursion on the budgets), Ok from read_data with CRC on implies the received CRC matches (with C19: corruption detected), unacknowledged / failed / unexpected-token / SPI-error cases are errors, failed initialisation leaves the card uninitialised. Fault injection between the card specification and the real driver: bit flips, bursts, dead / busy / garbage card at sampled byte positions, rejected writes, SPI errors",
  "C14": "theorems (every bus, every call): every command frame is 0x40|c, big-endian argument, CRC-7 (= the polynomial's, by C19) with end bit; commands other than CMD0/CMD12 are directly preceded by a poll that read 0xFF; ACMD41/ACMD23 directly follow CMD55; data framing; CMD18 is followed by CMD12, CMD25 by the stop token; identification order. Oracle: the card specification's violation list and an independent frame parser on every session incl. after errors and re-identification",
  "C15": "mounting never panics for arbitrary MBR / boot-sector / info-sector bytes (proved about a model with the Rust's checked/unchecked u32 arithmetic), every well-formed boot sector yields the Microsoft-formula layout, type boundaries 4085/65525, info sentinels, MBR rules: proved in Lean 4; correspondence on a valid grid from an independent formatter, field boundary values, mutations and random sectors through the real open_raw_volume",
- "C16": "theorems: byte-level FAT lens (set/get, frame, FAT32 top-nibble merge), every FAT update writes the same payload to both copies and preserves the mirror invariant, one allocation decrements the free count by exactly one, hint in range after allocation, the count never influences an allocation, the info-sector write touches bytes 488..495 only. History-level accounting is partial: mirror compared after every call, stored record vs FAT scan after closing everything, stale/unknown/correct starting records",
+ "C16": "theorems: byte-level FAT lens (set/get, frame, FAT32 top-nibble merge), every FAT update writes the same payload to both copies and preserves the mirror invariant, one allocation decrements the free count by exactly one, hint in range after allocation, the count never influences an allocation, the info-sector write touches bytes 488..495 only. History level (Props/C16Hist.lean): over EVERY history of engine operations (allocate, extend, truncate, free) identical FAT copies stay identical, a correct free count stays equal to the number of free FAT entries, an unknown count stays unknown, the hint stays unknown or >= 2. Partial: that API calls are such histories and that flush/close stores this pair is checked, not proved: mirror compared after every call, stored record vs FAT scan after closing everything, stale/unknown/correct starting records",
  "C17": "LfnBuffer::push never panics for any buffer state and fragment, as_str is always well-formed UTF-8, exact characterisation of as_str for every fragment sequence and buffer size (lossy decoding, minus a leading unpaired surrogate = the listed known finding), listing-level LFN pairing rules of the sequence state machine: proved in Lean 4; correspondence on class-exhaustive and random fragment sequences",
  "C18": "timestamp decode/encode round trips over all 2^32 field pairs and all calendar timestamps 1980..2107, directory-entry layout and encode/decode round trip for both FAT types and every field value, 8.3 parser = strict grammar (iff) and print/parse round trip: proved in Lean 4 for all inputs; correspondence over all 2^16 dates and times, all attribute bytes, boundary clusters/sizes, all strings up to length 3/4 over a class alphabet",
  "C19": "crc16 = remainder mod x^16+x^12+x^5+1 and crc7 = remainder mod x^7+x^3+1 (end bit set) for every byte string, append-self, GF(2)-linearity, detection of every single-bit, double-bit and <=16-bit burst error in a 512-byte block and in the 514-byte wire frame: all proved in Lean 4 about a model of the two Rust functions whose literals are regenerated from the source; exhaustive/dense correspondence of the compiled model with the crate",
